@@ -622,9 +622,22 @@ def oracle(cell, rt, pair, use_exclude=True):
         return "skip", f"harness:{cell_id(cell)} {pair}: {e}"
 
 
+def pow_tolerance(cell, pair):
+    """float ** float: 2 ulp against CPython's libm pow.  One documented relaxation: a *literal*
+    base that is an exact power of two 2^n (|n| >= 2) is rewritten by the LLVM of the installed
+    selene into exp2(n*y); the rounding of n*y is amplified to about ln2*|n*y| ulp (toolchain,
+    the runtime-operand form of the same cell is held to 2 ulp)."""
+    if cell["forms"][0] in LIT and pair[0] != 0:
+        m, e = math.frexp(abs(float(pair[0])))
+        n = e - 1
+        if m == 0.5 and abs(n) >= 2:
+            return 2 + math.ceil(min(1.4 * abs(n * float(pair[1])), 2.0**40))
+    return 2
+
+
 def judge(cell, rt, pair, exp, obs):
     """None if `obs` is Python's value, else bucket."""
-    ulps = 2 if (cell["op"] in POW and rt == "float") else 0
+    ulps = pow_tolerance(cell, pair) if (cell["op"] in POW and rt == "float") else 0
     if same(obs, exp, rt, ulps):
         return None
     return known_class(cell, pair) or f"{combo_name(cell)}.{cell['op']}.{pair_class(cell, pair)}"
@@ -1212,7 +1225,8 @@ SPEC = harness.Spec(
         "operator is applied; pairs where the uncoerced CPython result would differ (nat >= 2^63 against int, "
         "|int| > 2^53 compared with float) are counted in notes, not judged",
         "int/int and nat/nat true division is only judged when both |operands| <= 2^53 (documented float(a)/float(b))",
-        "float ** float is judged with a tolerance of 2 ulp against CPython's libm pow; all other float results bit-exact",
+        "float ** float is judged with a tolerance of 2 ulp against CPython's libm pow (literal power-of-two base 2^n, "
+        "|n|>=2: 2 + 1.4*|n*y| ulp, because selene's LLVM rewrites pow(2^n, y) to exp2(n*y)); all other float results bit-exact",
         "inf / nan operands are not generated (selene cannot build inf/nan constants); inf results of finite operands are",
         "nat observations are compared modulo 2^64 (the result channel may report them signed: property C17)",
         "unary operators and conversions are applied to variables only; literal-literal cells are not generated",
